@@ -452,7 +452,7 @@ def run_case(case):
             os.chdir(cwd0)
         seedpos = [i for i, a in enumerate(args) if a == '--seed']
         guarded = [a for i, a in enumerate(args) if not (i > 0 and args[i - 1] == '--seed')]
-        if not size_guard(tool, guarded):
+        if not case.get('sized') and not size_guard(tool, guarded):
             return Outcome(nontrivial=False, labels=['size-guard'])
         random.seed(case['rseed'])
         cwd = os.getcwd()
@@ -656,11 +656,40 @@ def enum_environment(tier):
             yield {'tool': tool, 'args': args, 'stdin': stdin, 'files': files, 'env': env}
 
 
+# every graph-taking sub-command with its graph argument replaced by each kind of file, by construction
+_GRAPH_SLOTS = [(['kcolor', '2'], 'simple', []), (['domset', '1'], 'simple', []), (['tiling'], 'simple', []), (['kclique', '2'], 'simple', []),
+                (['kcliquebin', '2'], 'simple', []), (['ramlb', '2', '2'], 'simple', []), (['matching'], 'simple', []), (['tseitin', 'first'], 'simple', []),
+                (['op'], 'simple', []), (['iso'], 'simple', []), (['iso', 'complete', '2', '-e'], 'simple', []), (['subgraph', '-G'], 'simple', ['-H', 'complete', '2']),
+                (['subgraph', '-G', 'complete', '3', '-H'], 'simple', []), (['ec'], 'simple', []), (['php'], 'bipartite', []), (['subsetcard'], 'bipartite', []),
+                (['peb'], 'dag', []), (['stone', '2'], 'dag', []), (['php', '3', '2', '-T', 'xorcomp'], 'bipartite', []), (['op', '3', '-T', 'majcomp'], 'bipartite', [])]
+
+
+def enum_hostile(tier):
+    # every number of variables from 0 to 40 gets printed once in every format (cheap formulas: one wide clause, N unit clauses)
+    for N in range(0, 41):
+        for k, (tool, out) in enumerate([('cnfgen', []), ('cnfgen', ['-of', 'opb']), ('pbgen', []), ('cnfgen', ['-q']), ('cnfgen', ['-of', 'latex'])]):
+            if tier == 'quick' and (N + k) % 2 and k >= 3:
+                continue
+            yield {'tool': tool, 'args': out + [['or', str(N), '0'], ['and', str(N), '0'], ['or', '0', str(N)]][(N + k) % 3], 'stdin': None, 'rseed': 0, 'sized': True}
+    i = 0
+    for si, (pre, gt, post) in enumerate(_GRAPH_SLOTS):
+        for ki, fk in enumerate(FILE_KINDS + ['good-{}:{}'.format(gt, k) for k in (0, 1, 5, 8)]):
+            for fi, fmtk in enumerate(([], ['matrix' if gt == 'bipartite' else 'kthlist'], ['gml'])):
+                i += 1
+                if tier == 'quick' and (si + ki + fi) % 3 != 0:
+                    continue
+                for tool in ('cnfgen', 'pbgen'):
+                    if tool == 'pbgen' and ('-T' in pre or i % 2):
+                        continue
+                    mods = [[], ['addedges', '1'], ['plantclique', '2'] if gt == 'simple' else (['plantbiclique', '1', '1'] if gt == 'bipartite' else [])][i % 3]
+                    yield {'tool': tool, 'args': pre + fmtk + ['@FILE:' + fk] + (mods if gt != 'dag' else []) + post, 'stdin': None, 'rseed': i % 5}
+
+
 TOOLS = ['cnfgen', 'pbgen', 'cnfshuffle', 'kthlist2pebbling']
 
 SUBCHECKS = [
-    SubCheck('hostile', run_case, strategy=strat_case, quick=3000, thorough=150000,
-             rule="valid command lines of every sub-command (graph constructions, numeric forms, -T chains, every output option, -o into fresh files, into files that already hold a longer text, and into directories) with 0..3 mutations: numbers replaced by -1/0/1/2/3/5/6/x/1.5/empty, tokens deleted/duplicated, unknown options, graph constructions replaced by missing/directory/empty/garbage/wrong-format/binary/unreadable files with every format keyword, or by a good file of the right graph type whose name is legal but unusual (braces and format fields, percent signs, $, blanks, quotes, glob characters, a tab, a backslash - 19 names), 'save' into bad places (a directory, a directory that does not exist, unknown extensions), constructions of the wrong graph type, extra tokens, -h anywhere; cnfshuffle and kthlist2pebbling with option soups and good/garbage stdin; oracle: exactly one of {exit 0 + complete document accepted by the strict reader of the format, help + exit 0, non-zero exit + empty stdout + non-empty stderr with every line starting with the comment marker}; never an escaping exception or traceback; non-trivial: the argv names a sub-command",
+    SubCheck('hostile', run_case, strategy=strat_case, enumerate_cases=enum_hostile, quick=3000, thorough=150000,
+             rule="enumerated: formulas with 0..40 variables printed by both tools in every format; twenty graph slots (every graph-taking sub-command, both graphs of iso -e and subgraph, the graph of -T xorcomp/majcomp) x seven kinds of bad file and four good files under unusual names x format keyword (none, the right one, gml) x a modifier, both tools (quick: a third); generated: valid command lines of every sub-command (graph constructions, numeric forms, -T chains, every output option, -o into fresh files, into files that already hold a longer text, and into directories) with 0..3 mutations: numbers replaced by -1/0/1/2/3/5/6/x/1.5/empty, tokens deleted/duplicated, unknown options, graph constructions replaced by missing/directory/empty/garbage/wrong-format/binary/unreadable files with every format keyword, or by a good file of the right graph type whose name is legal but unusual (braces and format fields, percent signs, $, blanks, quotes, glob characters, a tab, a backslash - 19 names), 'save' into bad places (a directory, a directory that does not exist, unknown extensions), constructions of the wrong graph type, extra tokens, -h anywhere; cnfshuffle and kthlist2pebbling with option soups and good/garbage stdin; oracle: exactly one of {exit 0 + complete document accepted by the strict reader of the format, help + exit 0, non-zero exit + empty stdout + non-empty stderr with every line starting with the comment marker}; never an escaping exception or traceback; non-trivial: the argv names a sub-command",
              required_labels=TOOLS + ['success', 'clean-error', 'help', 'bad-file', 'directory-argument', 'good-file-unusual-name-used', 'good-file-unusual-name-with-modifier']),
     SubCheck('subprocess', run_subprocess_case, strategy=strat_case, enumerate_cases=enum_subprocess, quick=32, thorough=2500,
              rule="the same generator, each command line run as a real process; enumerated: commands that read a formula or a graph from the standard input (every format keyword, and none) fed through a pipe with good and with malformed text (python -c 'from <tool module> import main; main()') and compared with the in-process verdict",
